@@ -42,6 +42,7 @@ const ParsingInfo& RSModel::GetParse(const EntityUID entity) const {
 EntityUID RSModel::Emplace(const CstType type, const std::string& definition) {
   const auto result = core.Emplace(type, definition);
   AfterInsert(result);
+  ResetBrokenDependants(result);
   NotifyModification();
   return result;
 }
@@ -49,6 +50,7 @@ EntityUID RSModel::Emplace(const CstType type, const std::string& definition) {
 EntityUID RSModel::InsertCopy(const EntityUID target, const RSCore& source) {
   const auto result = core.InsertCopy(target, source);
   AfterInsert(result);
+  ResetBrokenDependants(result);
   NotifyModification();
   return result;
 }
@@ -56,6 +58,7 @@ EntityUID RSModel::InsertCopy(const EntityUID target, const RSCore& source) {
 EntityUID RSModel::InsertCopy(const ConceptRecord& cst) {
   const auto result = core.InsertCopy(cst);
   AfterInsert(result);
+  ResetBrokenDependants(result);
   NotifyModification();
   return result;
 }
@@ -65,6 +68,9 @@ VectorOfEntities RSModel::InsertCopy(const std::vector<ConceptRecord>& input) {
   for (const auto uid : result) {
     AfterInsert(uid);
   }
+  for (const auto uid : result) {
+    ResetBrokenDependants(uid);
+  }
   NotifyModification();
   return result;
 }
@@ -73,6 +79,9 @@ VectorOfEntities RSModel::InsertCopy(const VectorOfEntities& input, const RSCore
   auto result = core.InsertCopy(input, source);
   for (const auto uid : result) {
     AfterInsert(uid);
+  }
+  for (const auto uid : result) {
+    ResetBrokenDependants(uid);
   }
   NotifyModification();
   return result;
@@ -165,6 +174,17 @@ void RSModel::ResetDependants(const EntityUID target) {
 void RSModel::AfterInsert(const EntityUID target) {
   dataFacet->ResetFor(target);
   calulatorFacet->ResetFor(target);
+}
+
+void RSModel::ResetBrokenDependants(const EntityUID target) {
+  // Note: definitions mentioning alias of a new constituent were incorrect before insertion,
+  // so dependants hold no valid values and should get the same initial state as after loading
+  for (const auto dependant : core.RSLang().Graph().ExpandOutputs({ target })) {
+    if (dependant != target && !IsBaseSet(core.GetRS(dependant).type)) {
+      calulatorFacet->ResetFor(dependant);
+      dataFacet->ResetFor(dependant);
+    }
+  }
 }
 
 EntityUID RSModel::Load(ConceptRecord&& cst) {
